@@ -6,6 +6,7 @@ package p9
 import (
 	"encoding/binary"
 	"encoding/json"
+	"errors"
 	"io"
 	"math/rand"
 	"net"
@@ -268,6 +269,84 @@ func vh02BadCounts() [][]byte {
 	return out
 }
 
+// ---- the client's receiver: the real Client.handleOne on a Client built around the scripted reader ----
+
+type vh02Conn struct{ *vh02Reader }
+
+func (vh02Conn) Write(p []byte) (int, error) { return len(p), nil }
+func (vh02Conn) Close() error                { return nil }
+
+type vh02Pending struct {
+	Tag int `json:"tag"`
+	Typ int `json:"typ"` // the R type the call expects
+}
+
+// vh02ClientRun registers one pending call per entry and lets handleOne consume the stream frame by frame.
+// A rejection is visible only as the error every pending call gets (no tag), as in the real client.
+func vh02ClientRun(o *vhOut, what string, msize uint32, stream []byte, pend []vh02Pending, max int) {
+	rd := &vh02Reader{data: stream}
+	c := &Client{conn: vh02Conn{rd}, pending: map[tag]*response{}, messageSize: msize, log: ulog.Null, recvr: make(chan bool, 1)}
+	resps := map[int]*response{}
+	for _, p := range pend {
+		m, err := msgDotLRegistry.get(0, msgType(p.Typ))
+		if err != nil {
+			continue
+		}
+		if pl, ok := m.(payloader); ok {
+			pl.SetPayload(nil)
+		}
+		rs := &response{r: m, done: make(chan error, 4)}
+		c.pending[tag(p.Tag)] = rs
+		resps[p.Tag] = rs
+	}
+	var evs []vh02Event
+	for i := 0; i < max; i++ {
+		before := rd.pos
+		var ev vh02Event
+		func() {
+			defer func() {
+				if recover() != nil {
+					ev.Kind = "panic"
+				}
+			}()
+			c.handleOne()
+		}()
+		ev.Consumed = rd.pos - before
+		if ev.Kind != "panic" {
+			ev.Kind = "reject" // nobody completed and no connection error: a frame nobody waits for
+			ev.Tag = int(noTag)
+			for tg, rs := range resps {
+				select {
+				case err := <-rs.done:
+					var ce ConnError
+					switch {
+					case err == nil:
+						ev = vh02Event{Kind: "deliver", Tag: tg, Typ: int(rs.r.typ()), Consumed: ev.Consumed}
+						if pl, ok := rs.r.(payloader); ok {
+							ev.HasPay = true
+							ev.Payload = vhBytes(pl.Payload())
+						}
+						delete(resps, tg)
+					case errors.As(err, &ce):
+						ev.Kind = "conn"
+					}
+					if err != nil {
+						delete(resps, tg)
+					}
+				default:
+				}
+			}
+		}
+		evs = append(evs, ev)
+		if ev.Kind == "conn" || ev.Kind == "panic" {
+			break
+		}
+	}
+	vh02id++
+	o.Emit(map[string]interface{}{"kind": "client", "id": vh02id, "what": what, "msize": msize, "max": max, "stream": vhBytes(stream),
+		"pending": pend, "events": evs})
+}
+
 func vh02FuzzSeconds(def int) int {
 	if v, err := strconv.Atoi(os.Getenv("VERIF_FUZZ_SECONDS")); err == nil {
 		return v
@@ -460,6 +539,47 @@ func TestVerifC02(t *testing.T) {
 		if n <= 8193 {
 			vh02Run(o, "unknown-type-cut", 65536, st, vh02Cuts(r, len(st)), 3)
 		}
+	}
+	// 6b. the client's receiver (Client.handleOne): replies for pending and non-pending tags, wrong R type,
+	// Rlerror, damaged replies, a client created with msize above 4 MiB
+	rframes := func() [][]byte {
+		var out [][]byte
+		data := make([]byte, 20)
+		r.Read(data)
+		out = append(out, vh02Encode(31, &rread{Data: data}), vh02Encode(32, &rwalk{QIDs: []QID{{Path: 1}}}), vh02Encode(33, &rlopen{}),
+			vh02Encode(34, &rlerror{Error: 2}), vh02Encode(35, &rreaddir{Count: 100, Entries: []Dirent{{Name: "x"}}}), vh02Encode(36, &rclunk{}),
+			vh02Encode(37, &rwrite{Count: 9}), vh02Encode(38, &rgetattr{}))
+		return out
+	}()
+	pendAll := []vh02Pending{{31, int(msgRread)}, {32, int(msgRwalk)}, {33, int(msgRlopen)}, {34, int(msgRlopen)}, {35, int(msgRreaddir)},
+		{36, int(msgRclunk)}, {37, int(msgRwrite)}, {38, int(msgRgetattr)}}
+	ncl := 60
+	if thorough {
+		ncl = 600
+	}
+	for i := 0; i < ncl; i++ {
+		var stream []byte
+		for j := 1 + r.Intn(4); j > 0; j-- {
+			g := append([]byte{}, rframes[r.Intn(len(rframes))]...)
+			switch r.Intn(6) {
+			case 0:
+				g = vh02Mutate(r, g)
+			case 1:
+				binary.LittleEndian.PutUint16(g[5:], uint16(31+r.Intn(12))) // another call's tag, or nobody's
+			case 2:
+				g[4] = []byte{byte(msgRread), byte(msgRlerror), byte(msgRwalk), byte(msgTread), 3}[r.Intn(5)]
+			}
+			stream = append(stream, g...)
+		}
+		pend := pendAll
+		if i%3 == 0 {
+			pend = pendAll[:4]
+		}
+		ms := []uint32{65536, 8 << 20, uint32(len(stream)), 64}[r.Intn(4)]
+		vh02ClientRun(o, "client", ms, stream, pend, 8)
+	}
+	for _, sz := range []uint32{maximumLength, maximumLength + 1, 8 << 20, 8<<20 + 1, 1<<32 - 1, 6} {
+		vh02ClientRun(o, "client-size", 8<<20, vh02SetSize(rframes[0], sz), pendAll, 2)
 	}
 	// 7. frames too large for the Coq evaluation: observed numbers only
 	for _, c := range [][3]uint32{
